@@ -19,7 +19,7 @@ type Op struct {
 
 var OpKinds = []string{"remove-member", "swap-members", "rename-field", "add-field", "remove-message", "add-message",
 	"toggle-required", "change-field-type", "change-type-mapping", "add-enum-values", "add-group", "add-component",
-	"remove-component", "duplicate-field-number", "duplicate-msgtype", "reorder-messages"}
+	"remove-component", "duplicate-field-number", "duplicate-msgtype", "reorder-messages", "add-nested-groups"}
 
 // names the generator or the library's interfaces rely on
 var protectedFields = map[string]bool{
@@ -266,6 +266,28 @@ func Apply(base *schema.Schema, baseTM *schema.TypeMap, ops []Op) (s *schema.Sch
 			g := &schema.Member{Kind: "group", Name: gname, Required: op.C%2 == 0, Members: ms}
 			*h.members = append((*h.members)[:pos:pos], append([]*schema.Member{g}, (*h.members)[pos:]...)...)
 			note("add group %s (#%s, %d fields) to %s at %d", gname, num, len(ms), h.label, pos)
+		case "add-nested-groups":
+			// group > group > group (> group), all with fresh names, in one step
+			depth := 2 + op.C%3
+			var build func(level int) *schema.Member
+			build = func(level int) *schema.Member {
+				fresh++
+				gname := fmt.Sprintf("NoZzNest%dL%d", fresh, level)
+				s.Fields = append(s.Fields, &schema.FieldDef{Number: strconv.Itoa(maxFieldNumber(s) + 1), Name: gname, Type: "NUMINGROUP"})
+				fresh++
+				fname := fmt.Sprintf("ZzNestField%d", fresh)
+				s.Fields = append(s.Fields, &schema.FieldDef{Number: strconv.Itoa(maxFieldNumber(s) + 1), Name: fname, Type: fixTypesForNew[(op.C+level)%len(fixTypesForNew)]})
+				g := &schema.Member{Kind: "group", Name: gname, Required: level%2 == 0, Members: []*schema.Member{{Kind: "field", Name: fname, Required: true}}}
+				if level < depth {
+					g.Members = append(g.Members, build(level+1))
+				}
+				return g
+			}
+			g := build(1)
+			h := hs[op.A%len(hs)]
+			pos := op.B % (len(*h.members) + 1)
+			*h.members = append((*h.members)[:pos:pos], append([]*schema.Member{g}, (*h.members)[pos:]...)...)
+			note("add %d directly nested groups (%s ...) to %s at %d", depth, g.Name, h.label, pos)
 		case "add-component":
 			fresh++
 			cname := fmt.Sprintf("ZzComponent%d", fresh)
